@@ -196,6 +196,28 @@ def run(chk, replay=None):
                     chk.violation('extreme query:%s' % style, {'x': x, 'val': val, 'ge': repr(g), 'le': repr(l), 'expected': [want_ge / n, want_le / n]})
         chk.nontrivial('extreme|%d' % t)
 
+    # the same array object queried, overwritten in place with another sample (a reused buffer) and queried again: the
+    # answer is a function of the current contents
+    for t in range(30 if quick else 300):
+        n = rng.randint(1, 9)
+        buf = numpy.zeros(n)
+        for rep in range(3):
+            sample = [float(rng.randint(0, 6)) for _ in range(n)]
+            buf[:] = sample
+            v = float(rng.randint(-1, 7))
+            g = guarded(stats.greater_equal_ecdf, buf, v)
+            l = guarded(stats.less_equal_ecdf, buf, v)
+            dd = guarded(stats.get_quantiles, buf, v)
+            be_ = guarded(stats.binned_ecdf, buf, [v])
+            chk.count(4)
+            wg, wl = sum(1 for a in sample if a >= v) / n, sum(1 for a in sample if a <= v) / n
+            if isinstance(g, Raised) or isinstance(l, Raised) or isinstance(dd, Raised) or isinstance(be_, Raised) or \
+                    float(g) != wg or float(l) != wl or tuple(float(x) for x in dd) != (wg, wl) or float(be_[1][0]) != wl:
+                chk.violation('reused buffer', {'sample': sample, 'v': v, 'round': rep, 'ge': repr(g), 'le': repr(l), 'quantiles': repr(dd),
+                                                'expected': [wg, wl]})
+                break
+        chk.nontrivial('buffer|%d' % t)
+
     # code -> trace: large samples, heavy ties
     traces = []
     n_tr = 60 if quick else 2500
